@@ -1319,6 +1319,33 @@ func writeSites(b *strings.Builder, root string, files []string, parsed map[stri
 		}
 	}
 	sort.Strings(reached)
+	// who can call into package unmarshal at all, and how many index/slice/assert sites remain below Decode()
+	var importers []string
+	total := 0
+	for _, p := range files {
+		rel, _ := filepath.Rel(root, p)
+		if filepath.Dir(rel) == "utils/unmarshal" && !strings.HasPrefix(filepath.Base(rel), "zz_verif") {
+			var all []panicSite
+			for _, d := range parsed[p].Decls {
+				if fd, ok := d.(*ast.FuncDecl); ok && fd.Body != nil {
+					collectSites(fd.Body, rel, recvName(fd), false, &all, nil)
+				}
+			}
+			total += len(all)
+			continue
+		}
+		if strings.Contains(rel, "utils/unmarshal/") {
+			continue
+		}
+		for _, im := range parsed[p].Imports {
+			if strings.HasSuffix(unquote(im.Path.Value), "writer/utils/unmarshal") {
+				importers = append(importers, rel)
+			}
+		}
+	}
+	b.WriteString("\n(* files outside package unmarshal that import it (its only callers) *)\n")
+	b.WriteString("Definition gen_unmarshal_importers : list string := " + strList(importers) + ".\n")
+	fmt.Fprintf(b, "(* index / slice / single-value assertion sites in package unmarshal, all functions *)\nDefinition gen_unmarshal_sites_total : Z := %d.\n", total)
 	b.WriteString("\n(* expressions that can panic on the handler goroutine (outside tamePanic): (file, function, index|slice|assert, expression) *)\n")
 	b.WriteString("Definition gen_handler_side_sites : list (string * string * string * string) := [\n")
 	for i, st := range sites {
